@@ -309,7 +309,17 @@ def impl(case):
     text = DOCS[case["doc"]]
     if case["op"] == "parse":
         ct = case.get("ct", "list")
-        lib = bibtexparser.parse_string(text, parse_stack=_mk(case["ps"], ct), append_middleware=_mk(case["am"], ct))
+        ps, am = _mk(case["ps"], ct), _mk(case["am"], ct)
+        lib = bibtexparser.parse_string(text, parse_stack=ps, append_middleware=am)
+        if ct == "list":
+            # the caller's lists are not changed, and handing the same list objects over again gives the same result
+            # (no state may leak from one call into the next)
+            for given, want in ((ps, case["ps"]), (am, case["am"])):
+                if given is not None and len(given) != len(want):
+                    return "(stack-argument-mutated)"
+            again = bibtexparser.parse_string(text, parse_stack=ps, append_middleware=am)
+            if enc(B.enc_blocks(again.blocks)) != enc(B.enc_blocks(lib.blocks)):
+                return "(second-call-differs)"
         return C.ok(B.enc_blocks(lib.blocks))
     if case["op"] == "write":
         lib = bibtexparser.parse_string(text)
@@ -319,6 +329,12 @@ def impl(case):
         ct = case.get("ct", "list")
         us, pm = _mk(case["us"], ct), _mk(case["pm"], ct)
         out = bibtexparser.write_string(lib, unparse_stack=us, prepend_middleware=pm)
+        if ct == "list":
+            for given, want in ((us, case["us"]), (pm, case["pm"])):
+                if given is not None and len(given) != len(want):
+                    return "(stack-argument-mutated)"
+            if bibtexparser.write_string(bibtexparser.parse_string(text), unparse_stack=us, prepend_middleware=pm) != out:
+                return "(second-call-differs)"
         # what the model predicts is the library after the requested middlewares; recompute it on the real code
         lib2 = bibtexparser.parse_string(text)
         for m in (_mk(case["pm"]) or []) if case["us"] is None else (_mk(case["us"]) or []):
@@ -419,6 +435,15 @@ def oracle(case):
                 want = ("raise", "TypeError")
         if got != want:
             return "parse_string gave %s, the requested stack applied in order gives %s" % (str(got)[:150], str(want)[:150])
+        if not (ps is not None and am is not None):
+            try:
+                r = impl(case)
+            except (ValueError, TypeError):
+                r = None
+            if r == "(stack-argument-mutated)":
+                return "parse_string changed the list it was given as parse_stack / append_middleware"
+            if r == "(second-call-differs)":
+                return "parse_string with the same stack arguments gives a different library the second time"
         return None
     if case["us"] is not None and case["pm"] is not None:
         try:
@@ -432,6 +457,10 @@ def oracle(case):
         return None     # a probe returned a non-block: TypeError is the specified outcome
     if r == "(write-text-differs)":
         return "write_string does not equal prepend/unparse stack in order followed by the writer"
+    if r == "(stack-argument-mutated)":
+        return "write_string changed the list it was given as unparse_stack / prepend_middleware"
+    if r == "(second-call-differs)":
+        return "write_string with the same stack arguments gives a different text the second time"
     return None
 
 
